@@ -36,10 +36,10 @@ RANK = {'statement::include': 0, 'statement::r#assert': 1, 'statement::class': 2
 
 FILES = {'': 'grammar.rs', 'statement': 'grammar/statement.rs', 'value': 'grammar/value.rs', 'r#type': 'grammar/type.rs'}
 
-REQ = [C('old(p).inv(false)', BOTH), C('old(p).open_node()', BOTH, name='called inside an open node')]
-ENS = [C('final(p).inv_s(false)', BOTH, name='parser invariant preserved'),
+REQ = [C('old(p).inv(false)', BOTH), C('old(p).open_node()', 'C02', name='called inside an open node')]
+ENS = [C('final(p).inv_s(false)', 'C02', name='parser invariant preserved'),
        C('final(p).inv_t(false)', 'C01', name='tiling preserved: builder text == input prefix before the look-ahead'),
-       C('final(p).same_shape(old(p))', BOTH, name='builder balanced: every start_node has its finish_node'),
+       C('final(p).same_shape(old(p))', 'C02', name='builder balanced: every start_node has its finish_node'),
        C('final(p).fuel() <= old(p).fuel()', 'C02', name='never un-consumes input')]
 LT = C('final(p).fuel() < old(p).fuel()', 'C02', name='consumes at least one token')
 
@@ -98,8 +98,8 @@ pub open spec fn is_type_first(k: TokenKind) -> bool {
 
     # ---------------- grammar.rs
     g('', 'source_file',
-      req=[C('old(p).bv().parents.len() == 0 && old(p).bv().n == 0', BOTH)],
-      ens=[C('final(p).bv().parents.len() == 0 && final(p).bv().n == 1', BOTH, name='exactly one root node is built'),
+      req=[C('old(p).bv().parents.len() == 0 && old(p).bv().n == 0', 'C02')],
+      ens=[C('final(p).bv().parents.len() == 0 && final(p).bv().n == 1', 'C02', name='exactly one root node is built'),
            C('final(p).srcv() == old(p).srcv() && final(p).bnd() == old(p).bnd()', BOTH),
            C('final(p).cur() == crate::token_kind::TokenKind::Eof', 'C01', name='source_file stops only at end of input')])
     U.fns[('grammar.rs', 'source_file')].requires = [c for c in U.fns[('grammar.rs', 'source_file')].requires if 'open_node' not in c.text]
@@ -124,7 +124,7 @@ pub open spec fn is_type_first(k: TokenKind) -> bool {
     S = 'statement'
     top = ['!p.cur().spec_is_trivia()']
     g(S, 'statement_list',
-      ens=[C('typ is TopLevel ==> final(p).cur() == crate::token_kind::TokenKind::Eof', BOTH, name='top level consumes the whole input')],
+      ens=[C('typ is TopLevel ==> final(p).cur() == crate::token_kind::TokenKind::Eof', 'C01', name='top level consumes the whole input')],
       loops={0: node_loop(), 1: node_loop(), 2: node_loop()})
     g(S, 'statement', lt_if='old(p).cur() != crate::token_kind::TokenKind::Eof')
     g(S, 'include', strict='Include')
@@ -154,14 +154,14 @@ pub open spec fn is_type_first(k: TokenKind) -> bool {
     g(S, 'class_ref')
     g(S, 'arg_value_list', loops={0: node_loop()})
     g(S, 'arg_value')
-    CPREQ = [C('old(p).bv().parents.last() <= cp_val(checkpoint) <= old(p).bv().n', BOTH, name='checkpoint lies inside the open node')]
-    CPENS = [C('final(p).bv().n == cp_val(checkpoint) + 1', BOTH)]
+    CPREQ = [C('old(p).bv().parents.last() <= cp_val(checkpoint) <= old(p).bv().n', 'C02', name='checkpoint lies inside the open node')]
+    CPENS = [C('final(p).bv().n == cp_val(checkpoint) + 1', 'C02')]
     g(S, 'positional_arg_value', req=CPREQ, ens=CPENS)
     g(S, 'named_arg_value', req=CPREQ, ens=CPENS)
     for nm in ('positional_arg_value', 'named_arg_value'):
         fc = U.fns[(FILES[S], nm)]
         fc.ensures = [c for c in fc.ensures if 'same_shape' not in c.text] + [
-            C('final(p).bv().parents =~= old(p).bv().parents && final(p).srcv() == old(p).srcv() && final(p).bnd() == old(p).bnd()', BOTH)]
+            C('final(p).bv().parents =~= old(p).bv().parents && final(p).srcv() == old(p).srcv() && final(p).bnd() == old(p).bnd()', 'C02')]
     g(S, 'body', loops={0: node_loop()})
     g(S, 'body_item', lt_if='ret')
     g(S, 'field_def', req=[C('crate::parser::is_type_first(old(p).cur()) || old(p).cur() == %s' % KW('Field'), 'C02')], ens=[LT])
